@@ -704,6 +704,57 @@ fn run_sample(sc: &scen::Scenario, overlay: Option<&std::path::PathBuf>, api: u8
     })
 }
 
+/// Month/day pairs named by date literals of a scenario file: strings of exactly four digits
+/// `MMDD`, six digits `YYMMDD` or `YYYY-MM-DD` that denote a calendar day. A scenario that pairs
+/// such a literal with a generated date (datafake's `date` is the wall clock) behaves differently
+/// on exactly that day of the year.
+fn literal_days(v: &Value, out: &mut Vec<(u32, u32)>) {
+    match v {
+        Value::String(s) => {
+            let b = s.as_bytes();
+            let num = |x: &[u8]| -> Option<u32> { if x.iter().all(|c| c.is_ascii_digit()) { std::str::from_utf8(x).ok()?.parse().ok() } else { None } };
+            let md = match b.len() {
+                4 => num(&b[0..2]).zip(num(&b[2..4])),
+                6 => num(&b[0..2]).and(num(&b[2..4]).zip(num(&b[4..6]))),
+                10 if b[4] == b'-' && b[7] == b'-' => num(&b[0..4]).and(num(&b[5..7]).zip(num(&b[8..10]))),
+                _ => None,
+            };
+            if let Some((m, d)) = md {
+                let len = match m { 1 | 3 | 5 | 7 | 8 | 10 | 12 => 31, 4 | 6 | 9 | 11 => 30, 2 => 29, _ => 0 };
+                if d >= 1 && d <= len && !out.contains(&(m, d)) {
+                    out.push((m, d));
+                }
+            }
+        }
+        Value::Array(a) => a.iter().for_each(|x| literal_days(x, out)),
+        Value::Object(o) => o.values().for_each(|x| literal_days(x, out)),
+        _ => {}
+    }
+}
+
+/// Start class "literal-day": half of the runs of the `uniform` class start on a day of the year
+/// that a date literal of the scenario file names (year and time of day drawn from a stream of
+/// their own, so that no other choice of the run moves).
+fn literal_day(mut c: ClockCfg, class: usize, run_seed: u64, scenario: &Value) -> ClockCfg {
+    if class != 1 {
+        return c;
+    }
+    let mut r = Sm(derive(run_seed, "clock-literal", 0));
+    if !r.chance(1, 2) {
+        return c;
+    }
+    let mut days = vec![];
+    literal_days(scenario, &mut days);
+    if days.is_empty() {
+        return c;
+    }
+    let (m, d) = *r.pick(&days);
+    let y = if (m, d) == (2, 29) { 2000 + 4 * r.range_i64(0, 12) } else { r.range_i64(2000, 2049) };
+    c.class = "literal-day".into();
+    c.start_ns = (seam::ns_of(y, m, d, 0, 0, 0, 0) + r.range_i64(0, seam::DAY_NS - 1)).clamp(c.lo_ns, c.hi_ns);
+    c
+}
+
 impl Engine for C15 {
     type Spec = Spec;
     const ID: &'static str = "pipeline";
@@ -762,7 +813,7 @@ impl Engine for C15 {
             scenario_digest: hex(sc.digest),
             path: path.into(),
             entropy_seed: derive(run_seed, "entropy", 0),
-            clock: gen_clock(class, ladder, &mut clock_r),
+            clock: literal_day(gen_clock(class, ladder, &mut clock_r), class, run_seed, &sc.value),
             more_pipelines,
             callers,
             steps,
